@@ -79,10 +79,11 @@ def prepare(case, d, r):
         if not os.path.isdir(p):
             os.remove(p)
     fb, fl, fr, fo = (os.path.join(d, n) for n in ("base.ipynb", "local.ipynb", "remote.ipynb", "out.ipynb"))
-    rr = random.Random(1)     # same disk form in every re-run of the case
-    write_nb(fb, case["base"], rr)
-    write_nb(fl, case["local"], rr)
-    write_nb(fr, case["remote"], rr)
+    # same disk form in every re-run of the case, and the same line-splitting choices in the three files (sides that
+    # differ in single characters then have the same byte size, as they have when one tool wrote all three)
+    write_nb(fb, case["base"], random.Random(1))
+    write_nb(fl, case["local"], random.Random(1))
+    write_nb(fr, case["remote"], random.Random(1))
     ph = case["placeholder"]
     ab, al, ar = fb, fl, fr
     if ph == "base_null":
